@@ -34,6 +34,19 @@ def vocabulary_doc():
     return _vocab_doc
 
 
+_LIB = None
+
+
+def norm_ty(s):
+    """type display strings differ between the feature configurations only in the facade crate (`std::ops::Range` /
+    `core::ops::Range`, `std::vec::Vec` / `alloc::vec::Vec`): compare them modulo that prefix"""
+    global _LIB
+    if _LIB is None:
+        import re
+        _LIB = re.compile(r"\b(std|core|alloc)::")
+    return _LIB.sub("lib::", s) if isinstance(s, str) else s
+
+
 def vocabulary():
     global _vocab
     if _vocab is None:
